@@ -83,6 +83,17 @@ CLAIMS = {
   COMMON_NOTE + "Runs stopped by an iteration limit expose no basis inverse through the API (no cache), so 'arbitrary iteration counts' is covered through pivot-in walks instead. "
   "E_UPDATE_NOSPACE/blow-up paths only if the histories reach them (see evidence distribution).",
   "DESIGN.md C13", "Lean 4 proof of the solve contracts (multiplication checkers) + model/implementation correspondence check"),
+ "C15": ("proof",
+  "Lean theorems: a reformulation relation Sim L L' a b (feasible points correspond both ways, objective values related by v' = a v + b, negative a with the opposite sense) "
+  "implies Infeasible <-> Infeasible, Unbounded <-> Unbounded and IsOpt L v <-> IsOpt L' (a v + b); Sim is closed under composition (so every composition of the listed "
+  "transformations is covered by induction); and each listed transformation as implemented by Qsx.Xform is a Sim: objective negation with min/max flip, row scaling by any non-zero "
+  "rational (sense flipped / ranged interval mirrored for negative factors), row duplication, redundant (relaxed) row, equality as two inequalities, variable shift (value offset "
+  "-c_j d) and positive rescale, row permutation, column permutation. Tied to /repo: the generator's transformations are compared line by line with Qsx.Xform in the model driver "
+  "for every composition; original and transformed problem are solved by QSexact_solver (primal/dual) and definitive status and the mapped value compared, on the mixed small "
+  "families, boxed-variable LPs, wide chains (50-150 columns) and sparse LPs up to 150x220 (quick) / 300x400 (thorough).",
+  COMMON_NOTE + "That the solver returns the true status on each formulation is C03 (explored); C15's theorems say what the two answers must be relative to each other. "
+  "Variable rescaling is proved for positive factors (reflection = negative factor is not in the generator).",
+  "DESIGN.md C15", "Lean 4 proof that each reformulation preserves status/value + model/implementation correspondence check"),
  "C03": ("proof",
   "Partial by nature. Proved in Lean: soundness of the three certificate checkers (optimality, Farkas, unbounded ray), mutual exclusivity of the three "
   "classes and uniqueness of the certified value - so the 'mathematical truth' of an LP is well defined by whichever certificate exists - and the "
